@@ -423,22 +423,6 @@ Proof.
   rewrite H. reflexivity.
 Qed.
 
-(* a case in which every configuration answered like the model and the TSDB reader answered the
-   specification passes both checks *)
-Lemma case_ok idx ext ms mint maxt k :
-  ms <> [] -> Forall coherent ms -> consistent ms -> wf_index idx -> chunks_sorted idx ->
-  let a := answer idx ext true ms mint maxt in
-  a = spec_answer idx ext ms mint maxt
-  /\ corr_ok (CSel idx ext true ms mint maxt (repeat a k) (spec_answer idx ext ms mint maxt)) = true
-  /\ pred_ok (CSel idx ext true ms mint maxt (repeat a k) (spec_answer idx ext ms mint maxt)) = true.
-Proof.
-  intros H1 H2 H3 H4 H5 a. pose proof (answer_eq_spec idx ext ms mint maxt H1 H2 H3 H4 H5) as E.
-  fold a in E. split; [exact E|]. split.
-  - cbn [corr_ok]. fold a. apply forallb_forall. intros x Hx. apply repeat_spec in Hx. subst x. apply set_eqb_refl.
-  - cbn [pred_ok]. apply forallb_forall. intros x Hx. apply repeat_spec in Hx. subst x. rewrite <- E.
-    apply (list_eqb_refl' series_eqb series_eqb_refl).
-Qed.
-
 (* ---------- lazy posting groups ---------- *)
 (* Any set of label names may be marked lazy: their groups' postings are not fetched and all
    matchers of those names are re-checked on every candidate series instead
